@@ -119,11 +119,21 @@ func runC06(c *fw.Case) {
 	var err error
 	var got desync.Index
 	haveIndex := false
+	// fault: the caller's context is cancelled at a drawn scheduling step; success still means "complete"
+	cancelAt := 0
+	if c.ChanceAdded(1, 10, "c06.cancel") {
+		cancelAt = 1 + c.Draw(400, "c06.cancel.at")
+	}
+	cancelled := false
 	sr := c.Sim(func(rt *simrt.RT) {
 		rt.MaxSteps = 400000
 		dst.rt, src.rt = rt, rt
+		ctx, cancel := context.WithCancel(context.Background())
+		_ = cancel // released with the case; the setup function returns before the tasks run
+		if cancelAt > 0 {
+			rt.AtStep(cancelAt, func() { cancelled = true; c.Fault("context-cancelled"); cancel() })
+		}
 		rt.Go("main", func() {
-			ctx := context.Background()
 			switch op {
 			case 0:
 				err = desync.ChopFile(ctx, file, idx.Chunks, dst, n, desync.NullProgressBar{})
@@ -165,6 +175,23 @@ func runC06(c *fw.Case) {
 		return
 	}
 	delivered := dst.delivered + src.delivered
+	if err == nil && cancelled && delivered == 0 && stale == 0 {
+		if haveIndex {
+			if cls, d := compareTables(got.Chunks, idx.Chunks); cls != "" {
+				c.Violate("index-mismatch", names[op]+"/"+cls, "cancelled, reported success, but the produced index does not describe the input: %s", d)
+				return
+			}
+		}
+		if why := storeHasAll(dst, blob, idx.Chunks); why != "" {
+			c.Violate("store-incomplete", names[op]+"/cancelled", "the context was cancelled, %s reported success, but %s", names[op], why)
+			return
+		}
+		c.Outcome("ok")
+		return
+	}
+	if cancelled {
+		delivered++
+	}
 	if err == nil && stale > 0 && delivered == 0 {
 		if why := storeHasAll(dst, blob, idx.Chunks); why != "" {
 			c.Violate("store-incomplete", names[op]+"/stale-index", "the file no longer matches the index, ChopFile reported success, but %s", why)
